@@ -39,7 +39,13 @@ def run(ctx):
     # (b) mutations and all strict prefixes of valid dumps
     import execnet.gateway_base as gb
 
-    bases = [v for v in sc.special_values() if len(gb.dumps(v)) < 200]
+    def _small(v):
+        try:
+            return len(gb.dumps(v)) < 200
+        except Exception:
+            return False
+
+    bases = [v for v in sc.special_values() if _small(v)]
     bases += [sc.rand_value(rng, depth=rng.randint(1, 3), allow_bad=False, width=3) for _ in range(25 if ctx.quick else 250)]
     nmut = 0
     for v in bases:
